@@ -4,13 +4,17 @@ Usage: baseline.py [--fast]   (--fast adds `-n 8` via pytest-xdist; default mirr
 Exit 0 iff every stable_pass test passes.  Never used by a registered check."""
 import json, os, subprocess, sys, tempfile, xml.etree.ElementTree as ET
 fast = "--fast" in sys.argv
+repo = "/repo"
+if "--repo" in sys.argv:
+    repo = sys.argv[sys.argv.index("--repo") + 1]
 base = json.load(open("/root/.vp/BASELINE.json"))
 fd, xml = tempfile.mkstemp(suffix=".xml"); os.close(fd)
 cmd = ["/venv/bin/python", "-m", "pytest", "-ra", "-q", "-p", "no:cacheprovider", "--timeout=900",
        "--continue-on-collection-errors", "--junitxml=" + xml]
 if fast: cmd += ["-n", "8"]
 env = dict(os.environ); env.pop("LOGURU_VERIF", None)
-p = subprocess.run(cmd, cwd="/repo", env=env, stdout=subprocess.PIPE, stderr=subprocess.STDOUT, text=True)
+env["PYTHONPATH"] = repo
+p = subprocess.run(cmd, cwd=repo, env=env, stdout=subprocess.PIPE, stderr=subprocess.STDOUT, text=True)
 passed, failed = set(), set()
 for tc in ET.parse(xml).getroot().iter("testcase"):
     tid = (tc.get("classname") or "") + "::" + (tc.get("name") or "")
